@@ -289,6 +289,8 @@ func outLast() any                               { return nil }
 //@ func (*Executor).getArrayIndex
 //@ props C14
 //@ requires node != nil
+//@ atcall executeItem assert [C14 C15 C07] subscript-by-the-rules-of-the-mode: exec.ignoreStructuralErrors == exec.path.IsLax()
+//@ ensures [C07 C09 C15] relaxation-restored: exec.ignoreStructuralErrors == old(exec.ignoreStructuralErrors)
 //@ modifies exec.lastGeneratedObjectID
 //@ ensures [C05 C14] class: r1 != nil ==> errIs(r1, ErrExecution) || errIs(r1, ErrInvalid)
 //@ ensures [C14] ok-range: r1 == nil ==> -2147483648 <= r0 && r0 <= 2147483647
